@@ -111,9 +111,7 @@ def judge_pair(x, y, deg, hist, sigs):
                 ok = oc.close(val[k], ref, scale, F(1, 10**9))
             else:
                 sz = max(c.size() for c in curves)
-                degs = {len(sg) - 1 for c in rg.interpret(R).curves() for sg in c.segs}
-                nominal = all(pp * (a + b + 2) - 1 <= (4 + a + b + pp) - 1 for pp in degs)
-                ok = abs(rg.ex(val[k]) - ref) <= (F(1, 10**8) if nominal else F(2, 1000)) * sz ** (a + b + 2)
+                ok = abs(rg.ex(val[k]) - ref) <= (F(1, 10**8) if a + b == 0 else F(1, 10**6)) * sz ** (a + b + 2)
             if not ok:
                 fails.append(("refmoment:" + name, "moment(%d,%d) of %s is %r, exact boundary integral %s" % (a, b, name, val[k], oc.fmt_pt((ref, 0))[1:-4])))
                 break
